@@ -1,8 +1,9 @@
 """C28  Storage space reservations are honoured  (Engine H: BFS over histories, simulated disk).
 
 System under test: real StorageServer + FoolscapStorageServer on tmpfs, clock = virtual reactor.
-`allmydata.util.fileutil.get_available_space` (looked up by StorageServer.get_available_space on
-every call) is rebound to a simulated disk (lib_storage.SimDisk):
+`os.statvfs` (read by allmydata.util.fileutil.get_disk_stats, which StorageServer.get_available_space reaches on
+every call - so the reserved-space arithmetic of fileutil is code under test) is rebound to a simulated disk with
+100 root-only bytes (f_bfree > f_bavail) (lib_storage.SimDisk):
         available = max(0, capacity - payload bytes of completed shares - reserved_space)
 i.e. the disk charges a share's payload once it is complete; what is still being uploaded is
 only covered by the server's own reservation accounting - which is what the property is about.
